@@ -14,9 +14,9 @@ SPEC = dict(
     assumptions=['volatile words and __sync exchanges are modelled as acquire/release resp. seq_cst for TSan (x86-64 semantics, DESIGN.md 2.3)',
                  'liveness is decided as bounded progress: watchdog expiry without a provable all-threads-blocked state is inconclusive, not a violation'],
     jobs=[
-        job('future-tsan', 'h_future', 'run', variant='tsan', sources=SRC, cflags=['-DVERIF_NO_PTSHIMS'], cases={Q: 480, T: 8000}, procs=16, weight=1, timeout={Q: 300, T: 3000}, deadlock=True),
-        job('future-asan', 'h_future', 'run', variant='asan', sources=SRC + ['interpose/pthread_shims.cpp'], cases={Q: 800, T: 16000}, procs=16, weight=1, timeout={Q: 300, T: 3000}, deadlock=True),
-        job('future-plain', 'h_future', 'run', variant='plain', sources=SRC + ['interpose/pthread_shims.cpp'], cases={Q: 1600, T: 32000}, procs=16, weight=1, timeout={Q: 300, T: 3000}, deadlock=True),
+        job('future-tsan', 'h_future', 'run', variant='tsan', sources=SRC, cflags=['-DVERIF_NO_PTSHIMS'], cases={Q: 1440, T: 40000}, procs=16, weight=1, timeout={Q: 300, T: 3000}, deadlock=True),
+        job('future-asan', 'h_future', 'run', variant='asan', sources=SRC + ['interpose/pthread_shims.cpp'], cases={Q: 2400, T: 80000}, procs=16, weight=1, timeout={Q: 300, T: 3000}, deadlock=True),
+        job('future-plain', 'h_future', 'run', variant='plain', sources=SRC + ['interpose/pthread_shims.cpp'], cases={Q: 4800, T: 160000}, procs=16, weight=1, timeout={Q: 300, T: 3000}, deadlock=True),
     ],
-    floors={Q: dict(jobs=20000, **{'set:points_hit': 17, 'set:pool_configs': 16}), T: dict(jobs=400000, **{'set:points_hit': 18, 'set:pool_configs': 16})},
+    floors={Q: dict(jobs=100000, **{'set:points_hit': 17, 'set:pool_configs': 16}), T: dict(jobs=2000000, **{'set:points_hit': 18, 'set:pool_configs': 16})},
 )
